@@ -10,7 +10,6 @@
 //!   | `X:<codehex>:<msg>` an `Err(S3Error)` item, `<msg>` = `-` (no message) or `+<hex>`
 //! outputs     : frames (`/`-joined hex, `!` = Err item of the byte stream) terminal (`end`) transfer-encoding
 use bytes::Bytes;
-use futures::StreamExt;
 use s3s::dto::{
     ContinuationEvent, EndEvent, Progress, ProgressEvent, RecordsEvent, SelectObjectContentEvent,
     SelectObjectContentEventStream, Stats, StatsEvent,
@@ -395,10 +394,20 @@ fn evaluate(f: &[&str]) -> Vec<String> {
     let mut frames: Vec<Option<Vec<u8>>> = Vec::new();
     let mut terminal = "end";
     futures::executor::block_on(async {
+        // read the body the way hyper's HTTP/1 dispatcher does: through `http_body::Body`, asking `is_end_stream()` before
+        // every frame and closing the response as soon as it says yes - frames a body still holds at that point never
+        // reach the client
+        use http_body_util::BodyExt;
         loop {
-            match body.next().await {
+            if http_body::Body::is_end_stream(&body) {
+                break;
+            }
+            match body.frame().await {
                 None => break,
-                Some(Ok(b)) => frames.push(Some(b.to_vec())),
+                Some(Ok(fr)) => match fr.into_data() {
+                    Ok(b) => frames.push(Some(b.to_vec())),
+                    Err(_) => continue, // trailers: none are expected
+                },
                 Some(Err(_)) => frames.push(None),
             }
             if frames.len() > n + 4 {
